@@ -309,6 +309,9 @@ func (e *lfEngine) inline(fr *lfFrame, st *lfState, x *ssa.Call, callee *ssa.Fun
 		e.analysed[callee] = true
 		e.checkLoops(callee)
 	}
+	if e.onEnter != nil && e.quiet == 0 {
+		e.onEnter(st, callee)
+	}
 	e.execFrom(nf, st, callee.Blocks[0], nil, 0, func(s2 *lfState, rets []lfVal) {
 		var res lfVal
 		switch len(rets) {
